@@ -111,6 +111,13 @@ def run_stage(work, drive, st, seed, out, model_invs, model_props):
         out.file_cmd[trace] = {"variant": st.kw.get("variant", "plain"), "args": args[:args.index("-out")] + args[args.index("-out") + 2:args.index("-stats")] + args[args.index("-stats") + 2:],
                                "label": st.label()}
         return ("trace", st, trace, stats, None)
+    if st.typ == "gc":
+        # values that carry pointers (strings, *struct, slices), the tree their only owner, collections forced between the calls
+        args = ["gc", "-kind", st.kind, "-u", st.uname, "-vt", st.kw.get("vt", "ptr"), "-seed", str(useed), "-out", trace, "-stats", stats,
+                "-n", str(st.kw.get("n", 2)), "-len", str(st.kw.get("len", 60))]
+        run_drive(drive, args)
+        out.file_cmd[trace] = {"variant": "plain", "args": args[:args.index("-out")] + args[args.index("-stats") + 2:], "label": st.label()}
+        return ("trace", st, trace, stats, None)
     if st.typ == "suite":
         # the repository's own tests, run unedited under the call recorder (verif_record.go); every recorded call is one trace line
         args = ["suite", "-repo", REPO, "-out", trace, "-stats", stats, "-seed", str(useed), "-max", str(st.kw.get("max", 1500)),
@@ -151,7 +158,7 @@ def tree_pipeline(work, prop, stages, invariants, seed, model_invs=None, model_p
         out.digests += s["distinct_digests"]
         out.kinds.add(s["kind"])
         for smp in s.get("samples", [])[:1]:
-            if len(out.samples) < 8:
+            if len(out.samples) < 8 or st.typ == "suite":
                 out.samples.append({"stage": st.label(), "history": smp if len(smp) <= 600 else smp[:600] + " ... (%d characters)" % len(smp)})
         if s.get("panics"):
             out.notes.append("%s: %d call(s) panicked" % (st.label(), s["panics"]))
